@@ -1407,7 +1407,15 @@ class SpaceManager(SharedSpaceOperations):
             if is_valid_name(fname):
                 name = fname
 
-        if not self._can_add(space, name, CellsImpl):
+        if name is None:
+            # An automatic name must be as free as a given one,
+            # in the sub spaces as well
+            while True:
+                name = space.cellsnamer.get_next(space.namespace)
+                if self._can_add(space, name, CellsImpl):
+                    break
+
+        elif not self._can_add(space, name, CellsImpl):
             raise ValueError("Cannot create cells '%s'" % name)
 
         cells = UserCellsImpl(
